@@ -32,6 +32,32 @@ def gen_signal(rng, maxn=6, start0=True, stair=None):
     return out
 
 
+def fancy_cases(rng, k, past_only=False):
+    """formulas over the arithmetic functions the random generators leave out in dense time (division, pow, sqrt, exp, ln, log),
+    with signals chosen so that every intermediate value is an exact small integer: [(formula, signals)]"""
+    X, Y = ('var', 0), ('var', 1)
+    terms = [('a2', 'div', X, ('const', 2)), ('a2', 'div', X, Y), ('a2', 'pow', ('a2', 'div', X, ('const', 4)), ('const', 2)), ('a1', 'sqrt', ('a2', 'mul', Y, Y)),
+             ('a2', 'add', ('a1', 'exp', ('a2', 'sub', X, X)), Y), ('a2', 'sub', X, ('a1', 'ln', ('const', 1))), ('a2', 'mul', Y, ('a2', 'log', ('const', 1), ('const', 2))),
+             ('a2', 'div', ('a2', 'mul', X, Y), ('const', 4))]
+    out = []
+    for _ in range(k):
+        t = rng.choice(terms)
+        p = ('pred', rng.choice(['geq', 'leq', 'gt', 'lt']), t, ('const', rng.randint(-2, 3)))
+        shapes = [p, ('once', p), ('oncet', 0, 2, p), ('histt', 2, 4, p), ('and', p, ('pred', 'geq', Y, ('const', 0))), ('since', p, ('pred', 'leq', X, ('const', 8)))]
+        if not past_only:
+            shapes += [('evt', 0, 4, p), ('alwt', 2, 4, p), ('until', p, ('pred', 'geq', Y, ('const', 2)))]
+        f = rng.choice(shapes)
+        sx, sy, tx, ty = [], [], 0, 0
+        for _ in range(rng.randint(2, 6)):
+            sx.append([tx, 4 * rng.randint(-3, 4)])
+            tx += rng.choice([1, 2, 2, 4])
+        for _ in range(rng.randint(2, 6)):
+            sy.append([ty, rng.choice([1, 2, -1, -2, 4, 2, 1])])
+            ty += rng.choice([1, 2, 2, 4])
+        out.append((f, [sx, sy]))
+    return out
+
+
 def to_impl(sig):
     return [[t * SCALE, float(v)] for t, v in sig]
 
